@@ -144,6 +144,47 @@ def c18_add(w):
     return None
 
 
+@clause("C18", "add-sequence")
+def c18_sequence(w):
+    """After any sequence of add_schema calls into one S, S.rules are the previous rules plus the re-rooted ones,
+    shortest path first (stable), and every added T is unchanged."""
+    V = ns()
+    S = build_schema(w["S"], V)
+    want = O.sorted_rules(w["S"]["rules"])
+    for step in w["adds"]:
+        T = build_schema(step["T"], V)
+        before = snap(T)
+        S.add_schema(T, build_path(step["R"], V))
+        if snap(T) != before:
+            return Fail("added-schema-mutated", "an added schema changed")
+        want = O.sorted_rules(want + [dict(rt, path={"parts": step["R"]["parts"] + rt["path"]["parts"]}) for rt in O.sorted_rules(step["T"]["rules"])])
+        got = [len(x.path) for x in S.rules]
+        if got != [len(rt["path"]["parts"]) for rt in want]:
+            return Fail("order-after-sequence", f"path lengths of S.rules after {len(w['adds'])} additions", got,
+                        [len(rt["path"]["parts"]) for rt in want])
+        objs = [build_rule(rt, V) for rt in want]
+        if [snap(x.condition) for x in S.rules] != [snap(x.condition) for x in objs] or [
+                snap(x.path.parts) for x in S.rules] != [snap(x.path.parts) for x in objs]:
+            return Fail("rules-after-sequence", "S.rules after a sequence of additions", [repr(x.path) for x in S.rules], [repr(x.path) for x in objs])
+    return None
+
+
+@cases("C18", "add-sequence")
+def c18_sequence_gen(r, tier):
+    n = 100 if tier == "quick" else 1500
+    keys = ["a", "b", 1, 1.0, True, 0]
+    for _ in range(n):
+        mk = lambda depth: {"rules": [{"path": {"parts": [{"$prim": r.choice(keys)} for _ in range(r.randint(0, depth))]},
+                                       "cond": G.gen_leaf(r, "Value", True)} for _ in range(r.randint(1, 3))]}
+        adds = []
+        T = mk(3)
+        for i in range(r.randint(2, 4)):
+            if r.random() < 0.4:
+                T = mk(3)
+            adds.append({"T": T, "R": {"parts": [{"$prim": r.choice(keys)} for _ in range(r.randint(0, 3))]}})
+        yield {"S": mk(2), "adds": adds}
+
+
 @cases("C18", "add-schema")
 def c18_gen(r, tier):
     n = 150 if tier == "quick" else 2500
